@@ -20,12 +20,12 @@ RULE = ("grid: curves 1..40 x rows {1,2,3} x wrap {F,T} x engine {numpy, normal}
         "data_section_header. distinct = distinct (curve count, row class, option tuple, value classes, engine); "
         "non-trivial = (>= 2 curves or >= 2 rows) and >= 1 finite non-integer sample")
 ASSUMPTIONS = [
-    "spacer contains at least one blank; data_width >= widest field + spacer (textwrap must not split a token)",
+    "spacer contains at least one blank; data_width >= widest field (textwrap must not split a token): the grid and a quarter of the random cases use exactly widest field + 0..3",
     "no finite non-index sample prints as a token numerically equal to NULL (it would legitimately come back as NaN)",
     "tolerance = half a unit of the last printed digit of the token fmt % x, plus 4 ulp of slack",
 ]
 REQUIRED = ["write_read_pairs", "samples_compared", "wrapped_pairs_multi_line", "pairs_curve_count_multiple_of_capacity",
-            "engine_numpy_pairs", "engine_normal_pairs", "nan_samples_compared", "index_null_equal_samples", "cases_in_memory_dlm_not_space", "rewrites_after_inplace_edit"]
+            "engine_numpy_pairs", "engine_normal_pairs", "nan_samples_compared", "index_null_equal_samples", "cases_in_memory_dlm_not_space", "rewrites_after_inplace_edit", "cases_data_width_equals_widest_field"]
 SOFT_DEADLINE = {"quick": 90, "thorough": 1500}
 LEVEL_TEXT = ("Exploration of the (shape x values x writer options x engine) product space with a per-sample oracle whose "
               "tolerance is derived from the token actually printed; line capacity is observed from the emitted text.")
@@ -50,6 +50,15 @@ def grid(tier):
                         k += 1
                         yield {"n": n, "r": 2, "opts": {"wrap": True, "fmt": fmt, "len_numeric_field": lnf, "spacer": spacer,
                                                           "data_width": dw}, "engine": "normal", "values": "plain", "seed": k}
+
+
+    for tight in (0, 1, 2):
+        for lhs in ("", " ", "  ", "   "):
+            for values, fmt in (("plain", "%.5f"), ("wide", "%.5f"), ("wide", "%24.16e"), ("plain", "%.2f")):
+                for n in (1, 3, 8):
+                    k += 1
+                    yield {"n": n, "r": 3, "opts": {"wrap": True, "fmt": fmt, "lhs_spacer": lhs}, "engine": ["numpy", "normal"][k % 2], "values": values,
+                           "seed": k, "tight_width": tight}
 
 
 def n_random(tier):
@@ -81,7 +90,8 @@ def random_case(rng, tier):
         o["data_section_header"] = rng.choice(["~A", "~ASCII Log Data", "~ASCII"])
     return {"n": n, "r": rng.choice([1, 2, 3, 5, 12, 20, 21, 22, 30]), "opts": o, "engine": rng.choice(["numpy", "normal"]),
             "values": rng.choice(["plain", "wide", "wide", "halfway", "ints", "nearnull"]), "nan": rng.choice([0, 0, 0.2, 0.6]),
-            "null": rng.choice([-999.25, -9999, 0, 999.25, 2147483647, -9999999.25, 99999999999, 3.4028235e+38]), "seed": rng.randrange(10 ** 9)}
+            "null": rng.choice([-999.25, -9999, 0, 999.25, 2147483647, -9999999.25, 99999999999, 3.4028235e+38]), "seed": rng.randrange(10 ** 9),
+            "tight_width": rng.choice([None, None, None, 0, 1, 2, 3])}
 
 
 def make_values(case):
@@ -161,6 +171,10 @@ def run_case(case, ctx):
     need = width + max(len(opts.get("spacer", " ")), len(opts.get("lhs_spacer", " "))) + 1
     if opts.get("wrap") and opts.get("data_width", 79) < need:
         opts["data_width"] = need
+    if opts.get("wrap") and case.get("tight_width") is not None:
+        # the narrowest supported line: exactly as wide as the widest field (+0, +1, +2) - the field then stands on a line of its own
+        opts["data_width"] = width + case["tight_width"]
+        ctx.count("cases_data_width_equals_widest_field" if case["tight_width"] == 0 else "cases_data_width_just_above_widest_field")
     kw = dict(opts)
     if "column_fmt" in kw:
         kw["column_fmt"] = {int(k): v for k, v in kw["column_fmt"].items()}
